@@ -50,9 +50,11 @@ def solve_points(n, edges, rng, tries=60):
     return None
 
 
-def chain_at(sg_target, away_from, chain, start, rng):
+def chain_at(sg_target, away_from, chain, start, rng, icode=""):
     """ALA-CYS-ALA moved rigidly: SG at sg_target, the body of the chain pointing away from `away_from`"""
-    at = gen.peptide(["ALA", "CYS", "ALA"], chain=chain, start=start)
+    # (with insertion codes the pieces carry no OXT, so that pdb2pqr keeps them in one chain under one identifier)
+    at = gen.peptide(["ALA", "CYS", "ALA"], chain=chain, start=start, icodes={0: icode, 1: icode, 2: icode} if icode else None,
+                     oxt=not icode)
     sg = next(a["xyz"] for a in at if a["name"] == "SG" and a["res_index"] == 1)
     cen = sum(a["xyz"] for a in at) / len(at)
     v_from = cen - sg
@@ -66,23 +68,24 @@ def chain_at(sg_target, away_from, chain, start, rng):
     return gen.transform(at, R, t)
 
 
-def build(points, order, same_chain, rng):
-    """PDB text with one chain per cysteine, chains written in `order`; returns text"""
+def build(points, order, same_chain, rng, icodes=False):
+    """PDB text with one chain per cysteine, chains written in `order`; returns text.  icodes: one chain id and one set of
+    residue numbers for all, told apart by insertion codes only"""
     cen = points.mean(axis=0) if len(points) > 1 else points[0] + np.array([1.0, 0, 0])
     chains = []
     for pos, k in enumerate(order):
-        cid = "A" if same_chain else "ABCDEFGH"[pos]
-        start = 10 * pos + 1 if same_chain else 1
-        chains.append(chain_at(points[k], cen, cid, start, rng))
+        cid = "A" if (same_chain or icodes) else "ABCDEFGH"[pos]
+        start = 1 if icodes else (10 * pos + 1 if same_chain else 1)
+        chains.append(chain_at(points[k], cen, cid, start, rng, icode="ABCDEFGH"[pos] if icodes else ""))
     return gen.pdb_text(chains)
 
 
 def cys_records(text):
-    """(chain, resseq) of the cysteines in file order"""
+    """(chain, resseq, icode) of the cysteines in file order"""
     out = []
     for ln in text.split("\n"):
         if ln.startswith("ATOM") and ln[12:16].strip() == "SG":
-            out.append((ln[21], int(ln[22:26])))
+            out.append((ln[21], int(ln[22:26]), ln[26]))
     return out
 
 
@@ -90,8 +93,8 @@ def ssbond_lines(text, pairs):
     cys = cys_records(text)
     out = []
     for n, (a, b) in enumerate(pairs, start=1):
-        (c1, s1), (c2, s2) = cys[a - 1], cys[b - 1]
-        out.append(f"SSBOND{n:4d} CYS {c1}{s1:5d}    CYS {c2}{s2:5d}                          1555   1555  2.03")
+        (c1, s1, i1), (c2, s2, i2) = cys[a - 1], cys[b - 1]
+        out.append(f"SSBOND{n:4d} CYS {c1}{s1:5d}{i1}   CYS {c2}{s2:5d}{i2}                         1555   1555  2.03")
     return "\n".join(out) + ("\n" if out else "")
 
 
@@ -112,7 +115,7 @@ def decorate(text, kind, rng):
         pick = set(rng.sample(range(len(cys)), max(1, len(cys) // 2)))
         lines = []
         for ln in text.split("\n"):
-            if ln.startswith("ATOM") and ln[17:20] == "CYS" and (ln[21], int(ln[22:26])) in [cys[i] for i in pick]:
+            if ln.startswith("ATOM") and ln[17:20] == "CYS" and (ln[21], int(ln[22:26]), ln[26]) in [cys[i] for i in pick]:
                 ln = ln[:17] + "CYM" + ln[20:]
             lines.append(ln)
         text = "\n".join(lines)
@@ -200,14 +203,14 @@ def run(ctx):
             orders.append(o)
         for oi, order in enumerate(orders):
             same = (gi + oi) % 3 == 0
-            text = build(pts, order, same, rng)
+            text = build(pts, order, same, rng, icodes=(gi + oi) % 5 == 1)
             extra = [[], ["--nodebump"], ["--noopt"], ["--nodebump", "--noopt"], ["--drop-water"]][(gi + 2 * oi) % 5]
             deco = ["plain", "ssbond-subset", "cym", "ssbond-all", "ssbond-subset+cym", "ssbond-relabelled"][(gi + 3 * oi + ctx.seed) % 6]
             ff = ffs[(gi + oi) % 6]
             if "cym" in deco and ff in ("PEOEPB", "CHARMM"):
                 ff = "AMBER"
             jobs.append({"text": decorate(text, deco, rng), "args": [f"--ff={ff}"] + extra,
-                         "what": f"graph n={n} {g['close']} order={order} same_chain={same} opts={extra} input={deco}"})
+                         "what": f"graph n={n} {g['close']} order={order} same_chain={same} icodes={(gi + oi) % 5 == 1} opts={extra} input={deco}"})
     # axis-parallel pairs around the limit, across grid lines
     dists = [2.0, 2.04, 2.3, 2.45, 2.499, 2.5, 2.501, 2.6]
     starts = [-0.01, 0.0, 0.55, 1.5, 1.98, 1.99, 4.97, -2.01]
